@@ -137,6 +137,43 @@ def main(tier, seed):
                     plain = outcome(lambda **kw: PyDBML(base, **kw), allow_properties=props)[0]
                     if with_opts[0][1] != plain:
                         ctx.fail('a leading byte-order mark changes the result', {'op': 'routes', 'text': text, 'props': props})
+        # open files in other states: a handle that has been read from already (the routes parse what is left), and a stream that
+        # cannot seek (a pipe): both handle routes must still agree with the string route on the text they are given
+        for ti, text in enumerate([t for t in texts if len(t.encode('utf8')) < 30000][:12]):
+            want, _ = outcome(lambda **kw: PyDBML(text, **kw), allow_properties=True)
+            hpath = os.path.join(tmpdir, f'h{ti}.dbml')
+            with open(hpath, 'w', encoding='utf8', newline='') as f:
+                f.write('// a first line the caller has read already\n' + text)
+
+            def advanced(fn):
+                def run(**kw):
+                    with open(hpath, encoding='utf8', newline='') as f:
+                        f.readline()
+                        return fn(f, **kw)
+                return run
+
+            def piped(fn):
+                def run(**kw):
+                    r_, w_ = os.pipe()
+                    os.write(w_, text.encode('utf8'))
+                    os.close(w_)
+                    with io.open(r_, 'r', encoding='utf8', newline='') as f:
+                        return fn(f, **kw)
+                return run
+            for state, wrap in (('read from already', advanced), ('not seekable', piped)):
+                for rname, fn, kw in (('PyDBML(file)', lambda f, **k: PyDBML(f, **k), {'allow_properties': True}),
+                                      ('PyDBML.parse_file(file)', lambda f, **k: PyDBML.parse_file(f), {})):
+                    if rname.startswith('PyDBML.parse_file'):
+                        ref_o, _ = outcome(lambda **k: PyDBML(text, **k), allow_properties=False)
+                    else:
+                        ref_o = want
+                    o, _ = outcome(wrap(fn), **kw)
+                    ctx.case(core.h(['handle-state', state, rname, text]), True,
+                             sample={'route': rname, 'handle': state, 'outcome': PC.brief(o)} if ti == 0 else None)
+                    ctx.count('handle-state:' + state)
+                    if not PC.same_parse(o, ref_o):
+                        ctx.fail(f'{rname} on an open file that is {state} does not give what the string route gives on the text handed over',
+                                 {'op': 'handle-state', 'route': rname, 'state': state, 'text': text}, got=PC.brief(o), want=PC.brief(ref_o))
         # options: renderer classes have the same effect on every route that accepts them
         sample_text = texts[0]
         for name, mroute, mkind, takes, thunk in routes(tmpdir, sample_text, 'opts'):
